@@ -279,6 +279,7 @@ class LoopRec:
     iter_path: Optional[T] = None   # syntactic path of the iterated expression (for loops)
     carried: Dict[str, T] = field(default_factory=dict)   # loop-carried variables: name -> widened term after the loop
     break_envs: list = field(default_factory=list)        # (pc, env) at every `break` of this loop
+    entry_pc: Optional[tuple] = None                      # path condition in force when the loop is entered
 
 
 @dataclass
@@ -550,6 +551,110 @@ def _format_to_fstr(fmt: str, args: tuple, kwargs: tuple) -> Optional["T"]:
     return T("fstr", (tuple(merged),))
 
 
+_PCT = None
+
+
+def _fstr_of(parts) -> "T":
+    merged = []
+    for p_ in parts:
+        if p_[0] == "lit" and merged and merged[-1][0] == "lit":
+            merged[-1] = ("lit", merged[-1][1] + p_[1])
+        elif p_[0] == "lit" and not p_[1]:
+            continue
+        else:
+            merged.append(p_)
+    if all(p_[0] == "lit" for p_ in merged):
+        return const("".join(p_[1] for p_ in merged))
+    return T("fstr", (tuple(merged),))
+
+
+def _fstr_value(val: "T", conv: str, spec: str):
+    if val.op == "const" and isinstance(val.a[0], str) and not spec and conv in ("", "s"):
+        return ("lit", val.a[0])
+    if val.op == "const" and isinstance(val.a[0], (int, str)) and not isinstance(val.a[0], bool) and conv in ("", "s"):
+        try:
+            return ("lit", format(val.a[0] if not conv else str(val.a[0]), spec))
+        except (ValueError, TypeError):
+            pass
+    return ("val", val, conv, const(spec) if spec else None)
+
+
+def _percent_to_fstr(fmt: str, arg: "T") -> Optional["T"]:
+    """'text %s %-12s %#x %05d' % (a, b, c, d)  as the f-string it equals (f'text {a} {b!s:<12} {c:#x} {d:05d}');
+    None for anything fancier (%(name)s, `*` widths, %c)."""
+    global _PCT
+    import re
+    if _PCT is None:
+        _PCT = re.compile(r"%(?:\((\w+)\))?([#0\- +]*)(\*|\d+)?(?:\.(\*|\d+))?[hlL]?([a-zA-Z%])")
+    specs = list(_PCT.finditer(fmt))
+    n_vals = sum(1 for m in specs if m.group(5) != "%")
+    if "%" in _PCT.sub("", fmt):
+        return None
+    if arg.op == "tuple":
+        if any(a.op == "star" for a in arg.a[0]):
+            return None
+        vals = list(arg.a[0])
+    elif n_vals == 1 and arg.op not in ("dict", "widen", "unknown", "list"):
+        vals = [arg]
+    else:
+        return None
+    if len(vals) != n_vals:
+        return None
+    parts, pos, vi = [], 0, 0
+    for m in specs:
+        parts.append(("lit", fmt[pos:m.start()]))
+        pos = m.end()
+        key, flags, width, prec, kind = m.groups()
+        if kind == "%":
+            if key or flags or width or prec:
+                return None
+            parts.append(("lit", "%"))
+            continue
+        if key or width == "*" or prec == "*":
+            return None
+        val = vals[vi]
+        vi += 1
+        left = "-" in flags
+        if kind in ("s", "r", "a"):
+            if set(flags) - {"-"}:
+                return None
+            spec = ""
+            if width:
+                spec = ("<" if left else ">") + width
+            if prec:
+                spec += "." + prec
+            # '%s' shows str(x); '{}' shows format(x, ''), the same text for every type without a __format__ of its own
+            conv = kind if (kind != "s" or spec) else ""
+            parts.append(_fstr_value(val, conv, spec))
+        elif kind in ("d", "i", "u", "x", "X", "o", "e", "E", "f", "F", "g", "G"):
+            if kind in ("i", "u"):
+                kind = "d"
+            spec = ""
+            if left and width:
+                spec += "<"
+            for sg in ("+", " "):
+                if sg in flags:
+                    spec += sg
+                    break
+            if "#" in flags:
+                spec += "#"
+            if "0" in flags and not left and width:
+                spec += "0"
+            spec += (width or "")
+            if prec:
+                if kind in ("d", "x", "X", "o"):
+                    return None
+                spec += "." + prec
+            if kind == "d" and not spec:
+                parts.append(_fstr_value(val, "", "d"))
+            else:
+                parts.append(_fstr_value(val, "", spec + kind))
+        else:
+            return None
+    parts.append(("lit", fmt[pos:]))
+    return _fstr_of(parts)
+
+
 def _fresh_local(t: "T") -> bool:
     """A container created in this function (a literal, a comprehension, or such a container after local updates /
     across loop iterations) - as opposed to one reached through a parameter, an attribute or an item."""
@@ -561,6 +666,18 @@ def _fresh_local(t: "T") -> bool:
         return _fresh_local(t.a[1]) and _fresh_local(t.a[2])
     if t.op == "widen":
         return all(_fresh_local(x) for x in t.a[2] if not (x.op == "widen" and x.a[:2] == t.a[:2]))
+    return False
+
+
+def _reached_object(t: "T") -> bool:
+    """An object reached through a parameter, an attribute or an item (possibly one of several, chosen by a condition) -
+    as opposed to a container this function created."""
+    if t.op in ("param", "attr", "sub", "elem"):
+        return True
+    if t.op == "widen":
+        return not _fresh_local(t)
+    if t.op == "ite":
+        return _reached_object(t.a[1]) or _reached_object(t.a[2])
     return False
 
 
@@ -685,6 +802,11 @@ class _Frame:
         return st
 
     def s_Expr(self, s, st):
+        if isinstance(s.value, ast.YieldFrom):
+            loop = self._yield_from_loop(s.value, st)
+            if loop is not None:
+                self.is_generator = True
+                return self.exec_block(loop, st)
         before = len(self.rec.calls)
         self.eval(s.value, st)
         if isinstance(s.value, ast.Call) and len(self.rec.calls) > before:
@@ -706,7 +828,41 @@ class _Frame:
                 self.bind(tgt, v, st, s)
         finally:
             self._store_alias = None
+        self._alias_locals(s, st)
         return st
+
+    def _alias_locals(self, s, st) -> None:
+        """A fresh local container that this statement also stores under an object path (`a = self.x = {}`, `self.x = a`,
+        `self.x = {'k': a}`) is from here on the object found at that path: later uses of the local are uses of the path."""
+        paths = [t for t in s.targets if isinstance(t, (ast.Attribute, ast.Subscript))]
+        if len(paths) != 1 or self.loops:
+            return
+        root = paths[0]
+        while isinstance(root, (ast.Attribute, ast.Subscript)):
+            root = root.value
+        if not (isinstance(root, ast.Name) and root.id in st.env and st.env[root.id].op == "param"):
+            return
+        tgt = _as_load(paths[0])
+        pairs = []
+        v = s.value
+        names = [t.id for t in s.targets if isinstance(t, ast.Name)]
+        if names and isinstance(v, (ast.List, ast.Dict, ast.Set)):
+            pairs = [(nm, tgt) for nm in names]
+        elif isinstance(v, ast.Name) and not names:
+            pairs = [(v.id, tgt)]
+        elif isinstance(v, ast.Dict) and not names:
+            for k, x in zip(v.keys, v.values):
+                if isinstance(k, ast.Constant) and isinstance(x, ast.Name):
+                    sub = ast.Subscript(value=tgt, slice=k, ctx=ast.Load())
+                    ast.copy_location(sub, s)
+                    pairs.append((x.id, sub))
+        for nm, expr in pairs:
+            cur = st.env.get(nm)
+            if cur is None or cur.op not in ("list", "dict", "set"):
+                continue
+            aid = self.I.fresh()
+            self.I.__dict__.setdefault("_alias_exprs", {})[aid] = expr
+            st.env[nm] = T("alias", (aid,))
 
     def s_AnnAssign(self, s, st):
         if s.value is not None:
@@ -782,9 +938,39 @@ class _Frame:
         return st
 
     def s_Import(self, s, st):
+        # a function-level import binds the same objects a module-level one would
+        for al in s.names:
+            local = al.asname or al.name.split(".")[0]
+            dotted = al.name if al.asname else al.name.split(".")[0]
+            st.env[local] = self._imported(dotted)
         return st
 
-    s_ImportFrom = s_Import
+    def s_ImportFrom(self, s, st):
+        base = s.module or ""
+        if s.level:
+            parts = self.mod.name.split(".")
+            parts = parts[: len(parts) - s.level]
+            base = ".".join(parts + ([s.module] if s.module else []))
+        for al in s.names:
+            if al.name == "*":
+                self.rec.notes.append(f"{self.qualname}:{s.lineno}: unsupported statement import *")
+                continue
+            st.env[al.asname or al.name] = self._imported(f"{base}.{al.name}")
+        return st
+
+    def _imported(self, dotted: str) -> T:
+        found = self.repo.lookup(dotted)
+        if found:
+            kind, fmod, obj = found
+            if kind == "func":
+                return T("func", (f"{fmod.name}.{obj.name}",))
+            if kind == "class":
+                return T("class", (obj.qualname,))
+            v = consteval.evaluate(self.repo, fmod, obj)
+            if v is not consteval.UNKNOWN and isinstance(v, (int, str, bytes, float, bool, type(None))):
+                return const(v)
+            return T("global", (f"{fmod.name}.{dotted.rpartition('.')[2]}",))
+        return T("global", (dotted,))
 
     def s_FunctionDef(self, s, st):
         key = self.I.fresh()
@@ -832,10 +1018,17 @@ class _Frame:
         if tv is False:
             return self.exec_block(s.orelse, st)
         base_pc = st.pc
+        test, holds_when, narrowed = self._narrow_membership(test)
         sa = st.copy()
         sa.pc = base_pc + ((test, True),)
         sb = st.copy()
         sb.pc = base_pc + ((test, False),)
+        if narrowed is not None:
+            g_term, path = narrowed
+            side = sa if holds_when else sb
+            for nme, val in list(side.env.items()):
+                if val == g_term:
+                    side.env[nme] = T("alias", (path,))
         ra = self.exec_block(s.body, sa)
         rb = self.exec_block(s.orelse, sb)
         if ra is None and rb is None:
@@ -845,6 +1038,28 @@ class _Frame:
         if rb is None:
             return ra
         return merge(ra, rb, test, base_pc)
+
+    def _narrow_membership(self, test: T):
+        """`x in d.get(k, {})` (the default an empty literal) says two things: k is in d, and x is in d[k].  Returns the test
+        spelled that way, the polarity of the test under which both hold, and (the .get term, the path d[k]) - on that side
+        a local holding the .get result IS d[k]."""
+        neg_ = False
+        c = test
+        while c.op == "not":
+            c, neg_ = c.a[0], not neg_
+        if c.op == "cmp" and c.a[0] in ("in", "not in"):
+            g = c.a[2]
+            if g.op == "call" and g.a[0].op == "attr" and g.a[0].a[1] == "get" and len(g.a[1]) == 2 and not g.a[2] \
+                    and g.a[1][1].op in ("dict", "list", "tuple", "set") and not g.a[1][1].a[0]:
+                d, k = g.a[0].a[0], g.a[1][0]
+                path = T("sub", (d, k))
+                both = T("bool", ("and", (T("cmp", ("in", k, d)), T("cmp", ("in", c.a[1], path)))))
+                holds = c.a[0] == "in"
+                new = both if holds else T("not", (both,))
+                if neg_:
+                    new, holds = T("not", (new,)), not holds
+                return new, holds, (g, path)
+        return test, None, None
 
     def s_Match(self, s, st):
         """`match` is interpreted as the if/elif chain it abbreviates.  Supported patterns: `Cls()` (isinstance), literal and
@@ -931,7 +1146,7 @@ class _Frame:
                 w = env[n]
                 while w.op == "mut":
                     w = w.a[0]
-                if w.op in ("param", "attr", "sub", "elem", "global"):
+                if w.op in ("param", "attr", "sub", "elem", "global", "alias") or (w.op == "ite" and _reached_object(w)):
                     continue
             names.append(n)
         seen = []
@@ -944,6 +1159,7 @@ class _Frame:
         lid = self.I.fresh()
         lr = LoopRec(lid, kind, iter_term, None, self.qualname, s.lineno, parent=self.loops[-1] if self.loops else None)
         lr.iter_path = getattr(self, "_pending_iter_path", None) if kind == "for" else None
+        lr.entry_pc = tuple(st.pc)
         self._pending_iter_path = None
         self.rec.loops[lid] = lr
         carried = self._assigned_names(body, st.env)
@@ -1073,8 +1289,122 @@ class _Frame:
                         else:
                             st = merge(ra, sb, test, base_pc)
                     return st
+        ds = self._desugar_for(s, it, st)
+        if ds is not None:
+            return self.exec_block(ds, st)
         self._pending_iter_path = self.path_of(s.iter, st)
         return self._run_loop("for", s, st, it, s.body, s.orelse, target=s.target)
+
+    def _desugar_for(self, s, it: T, st) -> Optional[list]:
+        """Loops driven through the iterator protocol, as the plain loops they are:
+
+            for x in (e(y) for y in ys if c(y)):  B    ->  for y in ys: if not c(y): continue; x = e(y); B
+            for x in map(f, xs):  B                     ->  for _e in xs: x = f(_e); B
+            for x in map(f, repeat(c, n)):  B           ->  for _i in range(n): x = f(c); B
+            for x in iter(f, sentinel):  B              ->  while True: x = f(); if x == sentinel: break; B
+            for _ in chain((k,), iter(f, sentinel)): B  ->  while True: B; if f() == sentinel: break      (B ignores _)
+
+        (map / filter / iter are lazy: the calls interleave with the body exactly as written on the right)"""
+        if s.orelse or getattr(s, "_desugared", False):
+            return None
+        uid = self.I.fresh()
+
+        def nm(tag):
+            return f"__ds{uid}_{tag}"
+
+        def fin(nodes):
+            for n_ in nodes:
+                for x in ast.walk(n_):
+                    if not hasattr(x, "lineno"):
+                        ast.copy_location(x, s)
+                ast.fix_missing_locations(n_)
+            return nodes
+
+        def load(n_):
+            return ast.Name(id=n_, ctx=ast.Load())
+
+        def store(n_):
+            return ast.Name(id=n_, ctx=ast.Store())
+
+        if isinstance(s.iter, ast.GeneratorExp) and len(s.iter.generators) == 1 and not s.iter.generators[0].is_async:
+            g = s.iter.generators[0]
+            gnames = {x.id for x in ast.walk(g.target) if isinstance(x, ast.Name)}
+            if gnames & set(st.env):
+                return None
+            body = [ast.If(test=ast.UnaryOp(op=ast.Not(), operand=c), body=[ast.Continue()], orelse=[]) for c in g.ifs]
+            body.append(ast.Assign(targets=[s.target], value=s.iter.elt))
+            return fin([ast.For(target=g.target, iter=g.iter, body=body + list(s.body), orelse=[])])
+
+        def is_call(t, kind, name, nargs):
+            return t.op == "call" and t.a[0] == T(kind, (name,)) and len(t.a[1]) in nargs and not t.a[2] \
+                and not any(a.op == "star" for a in t.a[1])
+        stages = []
+        cur = it
+        while True:
+            if is_call(cur, "builtin", "map", (2,)):
+                stages.insert(0, ("map", cur.a[1][0]))
+                cur = cur.a[1][1]
+            elif is_call(cur, "builtin", "filter", (2,)):
+                stages.insert(0, ("filter", cur.a[1][0]))
+                cur = cur.a[1][1]
+            elif is_call(cur, "builtin", "iter", (1,)):
+                cur = cur.a[1][0]
+            else:
+                break
+        target_names = {x.id for x in ast.walk(s.target) if isinstance(x, ast.Name)}
+        body_reads = {x.id for b_ in s.body for x in ast.walk(b_) if isinstance(x, ast.Name) and isinstance(x.ctx, ast.Load)}
+        has_continue = any(isinstance(x, ast.Continue) for b_ in s.body for x in ast.walk(b_)
+                           if not isinstance(b_, (ast.For, ast.While)))
+        pre, loop_kind, loop_args, post = [], None, None, []
+        if is_call(cur, "builtin", "iter", (2,)):
+            st.env[nm("f")], st.env[nm("s")] = cur.a[1]
+            pre = [ast.Assign(targets=[store(nm("e0"))], value=ast.Call(func=load(nm("f")), args=[], keywords=[])),
+                   ast.If(test=ast.Compare(left=load(nm("e0")), ops=[ast.Eq()], comparators=[load(nm("s"))]),
+                          body=[ast.Break()], orelse=[])]
+            loop_kind = "while"
+        elif is_call(cur, "global", "itertools.repeat", (2,)) and stages and stages[0][0] == "map":
+            # map(f, repeat(c, n)): n calls f(c)
+            st.env[nm("c")], st.env[nm("n")] = cur.a[1]
+            loop_kind = "for"
+            loop_args = (store(nm("i")), ast.Call(func=ast.Name(id="range", ctx=ast.Load()), args=[load(nm("n"))], keywords=[]))
+            pre = [ast.Assign(targets=[store(nm("e0"))], value=load(nm("c")))]
+        elif is_call(cur, "global", "itertools.chain", (2,)) and not stages and cur.a[1][0].op in ("tuple", "list") \
+                and len(cur.a[1][0].a[0]) == 1 and is_call(cur.a[1][1], "builtin", "iter", (2,)) \
+                and not (target_names & body_reads) and not has_continue:
+            st.env[nm("f")], st.env[nm("s")] = cur.a[1][1].a[1]
+            loop_kind = "while"
+            post = [ast.If(test=ast.Compare(left=ast.Call(func=load(nm("f")), args=[], keywords=[]), ops=[ast.Eq()],
+                                            comparators=[load(nm("s"))]), body=[ast.Break()], orelse=[])]
+            return fin([ast.While(test=ast.Constant(True), body=list(s.body) + post, orelse=[])])
+        elif stages:
+            st.env[nm("x")] = cur
+            loop_kind = "for"
+            loop_args = (store(nm("e0")), load(nm("x")))
+        else:
+            return None
+        body = list(pre)
+        last = nm("e0")
+        for i, (kind, fterm) in enumerate(stages):
+            if kind == "filter":
+                if fterm == NONE:
+                    keep = load(last)
+                else:
+                    st.env[nm(f"g{i}")] = fterm
+                    keep = ast.Call(func=load(nm(f"g{i}")), args=[load(last)], keywords=[])
+                body.append(ast.If(test=ast.UnaryOp(op=ast.Not(), operand=keep), body=[ast.Continue()], orelse=[]))
+                continue
+            st.env[nm(f"g{i}")] = fterm
+            nxt = nm(f"e{i + 1}")
+            body.append(ast.Assign(targets=[store(nxt)], value=ast.Call(func=load(nm(f"g{i}")), args=[load(last)], keywords=[])))
+            last = nxt
+        body.append(ast.Assign(targets=[s.target], value=load(last)))
+        body.extend(s.body)
+        if loop_kind == "while":
+            loop = ast.While(test=ast.Constant(True), body=body, orelse=[])
+        else:
+            loop = ast.For(target=loop_args[0], iter=loop_args[1], body=body, orelse=[])
+            loop._desugared = True
+        return fin([loop])
 
     def s_While(self, s, st):
         res = self._run_loop("while", s, st, None, s.body, s.orelse, test_node=s.test)
@@ -1167,8 +1497,8 @@ class _Frame:
             if record:
                 self.effect("sub-store", base, key, v, (), st, tgt, aug=aug, aug_val=aug_val,
                             path=self.path_of(tgt.value, st))
-            local = isinstance(tgt.value, ast.Name) and tgt.value.id in st.env \
-                and (base.op not in ("param", "attr", "sub", "elem", "widen") or (base.op == "widen" and _fresh_local(base)))
+            local = isinstance(tgt.value, ast.Name) and tgt.value.id in st.env and st.env[tgt.value.id].op != "alias" \
+                and not _reached_object(base)
             if local and base.op == "dict":
                 st.env[tgt.value.id] = T("dict", (base.a[0] + ((key, v),),))
             elif local:
@@ -1177,6 +1507,27 @@ class _Frame:
                 st.heap[T("sub", (self.path_of(tgt.value, st), key))] = v
         elif isinstance(tgt, ast.Starred):
             self.bind(tgt.value, v, st, stmt, record)
+
+    def _is_sentinel(self, v: T) -> bool:
+        """A module-level `NAME = object()` of the package: a value no table can contain."""
+        if v.op == "global" and v.a[0].startswith("pykdebugparser."):
+            found = self.repo.lookup(v.a[0])
+            return bool(found and found[0] == "const" and isinstance(found[2], ast.Call) and not found[2].args
+                        and not found[2].keywords and isinstance(found[2].func, ast.Name) and found[2].func.id == "object")
+        return False
+
+    def _struct_format(self, v: T) -> Optional[T]:
+        """The format of a compiled struct.Struct(fmt) object (a module constant of the package or built in place)."""
+        if v.op == "call" and v.a[0] == T("global", ("struct.Struct",)) and len(v.a[1]) == 1 and not v.a[2]:
+            return v.a[1][0]
+        if v.op == "global" and v.a[0].startswith("pykdebugparser."):
+            found = self.repo.lookup(v.a[0])
+            if found and found[0] == "const" and isinstance(found[2], ast.Call) and len(found[2].args) == 1 \
+                    and not found[2].keywords and self.repo.dotted(found[1], found[2].func) == "struct.Struct":
+                val = consteval.evaluate(self.repo, found[1], found[2].args[0])
+                if isinstance(val, (str, bytes)):
+                    return const(val)
+        return None
 
     def _namedtuple_item(self, v: T, key) -> Optional[T]:
         """v == NT(a, b, c=...) for a module-level `NT = namedtuple('NT', fields)`: the item at position / field `key`."""
@@ -1223,6 +1574,10 @@ class _Frame:
             del self.rec.pops[saved[0]:]
             del self.rec.calls[saved[1]:]
             return T("sub", (self.path_of(node.value, st), idx))
+        if isinstance(node, ast.Name) and node.id in st.env and st.env[node.id].op == "alias":
+            if isinstance(st.env[node.id].a[0], T):
+                return st.env[node.id].a[0]
+            return self.path_of(self.I._alias_exprs[st.env[node.id].a[0]], st)
         saved = (len(self.rec.pops), len(self.rec.calls), len(self.rec.effects), len(self.rec.returns))
         v = self.eval(node, st)
         del self.rec.pops[saved[0]:]
@@ -1252,7 +1607,12 @@ class _Frame:
 
     def e_Name(self, n, st):
         if n.id in st.env:
-            return st.env[n.id]
+            v = st.env[n.id]
+            if v.op == "alias":
+                if isinstance(v.a[0], T):
+                    return st.heap.get(v.a[0], v.a[0])      # the object at that path (established to exist)
+                return self.eval(self.I._alias_exprs[v.a[0]], st)
+            return v
         return self.resolve_global(n.id)
 
     def resolve_global(self, name: str, mod: Optional[ModuleInfo] = None) -> T:
@@ -1291,15 +1651,29 @@ class _Frame:
         return T("global", (f"?{name}",))
 
     def _callable_constant(self, mod: ModuleInfo, node) -> Optional[T]:
-        """A module-level `NAME = lambda ...` / `NAME = operator.methodcaller('split')`: the callable itself."""
-        ok = isinstance(node, ast.Lambda) or (
-            isinstance(node, ast.Call) and self.repo.dotted(mod, node.func) in
-            ("operator.attrgetter", "operator.itemgetter", "operator.methodcaller")
-            and all(isinstance(a, ast.Constant) for a in node.args) and not node.keywords)
+        """A module-level `NAME = lambda ...`, `NAME = operator.methodcaller('split')`, `NAME = functools.partial(f, ...)` or
+        `NAME = _factory(Cls, 2)` (a package function returning a closure): the callable itself.  The defining expression is
+        evaluated in a scratch record: what matters is the callable it yields, not the effects of building it."""
+        ok = isinstance(node, ast.Lambda)
+        if isinstance(node, ast.Call):
+            dn = self.repo.dotted(mod, node.func)
+            if dn in ("operator.attrgetter", "operator.itemgetter", "operator.methodcaller"):
+                ok = all(isinstance(a, ast.Constant) for a in node.args) and not node.keywords
+            elif dn in ("functools.partial", "partial"):
+                ok = True
+            elif dn and dn.startswith("pykdebugparser."):
+                found = self.repo.lookup(dn)
+                ok = bool(found) and found[0] == "func" and any(isinstance(x, (ast.FunctionDef, ast.Lambda))
+                                                                  for x in ast.walk(found[2]) if x is not found[2])
         if not ok or self.depth >= self.I.inline_depth:
             return None
-        fr = _Frame(self.I, mod, self.fnode, None, self.rec, self.qualname, self.depth + 1, self.stack)
-        return fr.eval(node, State({}, {}, ()))
+        cache = self.I.__dict__.setdefault("_callable_cache", {})
+        k = id(node)
+        if k not in cache:
+            fr = _Frame(self.I, mod, self.fnode, None, Record(), f"{mod.name}.<module>", self.depth + 1, self.stack)
+            v = fr.eval(node, State({}, {}, ()))
+            cache[k] = v if v.op in ("lambda", "call", "func") else None
+        return cache[k]
 
     def e_Attribute(self, n, st):
         base = self.eval(n.value, st)
@@ -1325,6 +1699,15 @@ class _Frame:
             # attribute of an external module / object: extend the dotted name
             if not base.a[0].startswith("pykdebugparser.") and not base.a[0].startswith("?"):
                 return T("global", (f"{base.a[0]}.{name}",))
+        fmt = self._struct_format(base)
+        if fmt is not None:
+            # S = struct.Struct(fmt): S.unpack(b) is struct.unpack(fmt, b), S.size is struct.calcsize(fmt)
+            if name in ("unpack", "unpack_from", "iter_unpack", "pack", "pack_into"):
+                return T("call", (T("global", ("functools.partial",)), (T("global", (f"struct.{name}",)), fmt), ()))
+            if name == "size":
+                return T("call", (T("global", ("struct.calcsize",)), (fmt,), ()))
+            if name == "format":
+                return fmt
         key = T("attr", (base, name))
         if key in st.heap:
             return st.heap[key]
@@ -1523,6 +1906,10 @@ class _Frame:
             v = _fold_bin(op, l.a[0], r.a[0])
             if v is not None:
                 return const(v)
+        if op == "%" and l.op == "const" and isinstance(l.a[0], str):
+            fs = _percent_to_fstr(l.a[0], r)
+            if fs is not None:
+                return fs
         return T("bin", (op, l, r))
 
     def e_UnaryOp(self, n, st):
@@ -1557,6 +1944,17 @@ class _Frame:
         st.pc = base_pc
         if not items:
             return const(opname == "and")
+        if opname == "and":
+            # `k in d and d[k] == c` (c a constant other than None) is `d.get(k) == c`
+            i = 0
+            while i + 1 < len(items):
+                m, c = items[i], items[i + 1]
+                if m.op == "cmp" and m.a[0] == "in" and c.op == "cmp" and c.a[0] == "==" \
+                        and c.a[1] == T("sub", (m.a[2], m.a[1])) and c.a[2].op == "const" and c.a[2].a[0] is not None \
+                        and m.a[2].op not in ("tuple", "list", "set", "const"):
+                    items[i:i + 2] = [T("cmp", ("==", T("call", (T("attr", (m.a[2], "get")), (m.a[1],), ())), c.a[2]))]
+                else:
+                    i += 1
         if len(items) == 1:
             return items[0]
         return T("bool", (opname, tuple(items)))
@@ -1572,6 +1970,21 @@ class _Frame:
                 folded = _fold_cmp(opname, left.a[0], right.a[0])
             elif right.op in ("tuple", "list") and opname in ("in", "not in") and not right.a[0]:
                 folded = opname == "not in"
+            if folded is None and opname in ("is", "is not") and NONE in (left, right):
+                other = right if left == NONE else left
+                if other.op in ("bin", "fstr", "list", "tuple", "dict", "set", "comp", "new", "lambda", "func", "class", "enum") \
+                        or (other.op == "const" and other.a[0] is not None):
+                    folded = opname == "is not"         # the result of arithmetic / a literal / an object is never None
+            if folded is None and opname in ("is", "is not"):
+                # `d.get(k, SENTINEL) is SENTINEL` (SENTINEL = object() at module level, never stored) is `k not in d`
+                for g_, s_ in ((left, right), (right, left)):
+                    if self._is_sentinel(s_) and g_.op == "call" and g_.a[0].op == "attr" and g_.a[0].a[1] == "get" \
+                            and len(g_.a[1]) == 2 and g_.a[1][1] == s_ and not g_.a[2]:
+                        folded = T("cmp", ("not in" if opname == "is" else "in", g_.a[1][0], g_.a[0].a[0]))
+                if folded is not None:
+                    parts.append(folded)
+                    left = right
+                    continue
             parts.append(const(folded) if folded is not None else T("cmp", (opname, left, right)))
             left = right
         if len(parts) == 1:
@@ -1600,7 +2013,7 @@ class _Frame:
         b = self.eval(n.orelse, sb)
         if a == b:
             return a
-        return T("ite", (test, a, b))
+        return get_form(test, a, b) or T("ite", (test, a, b))
 
     def e_Lambda(self, n, st):
         key = self.I.fresh()
@@ -1626,6 +2039,22 @@ class _Frame:
         v = self.eval(n.value, st) if n.value is not None else NONE
         self.rec.returns.append(Ret("yield", v, st.pc, self.loops, self.seq(), self.qualname, n.lineno))
         return T("unknown", ("sent",))
+
+    def _yield_from_loop(self, n, st) -> Optional[list]:
+        """`yield from <generator expression / map(...) / iter(f, sentinel)>` as `for y in <it>: yield y`."""
+        src = n.value
+        if not isinstance(src, ast.GeneratorExp):
+            if not (isinstance(src, ast.Call) and isinstance(src.func, ast.Name) and src.func.id in ("map", "iter", "filter")
+                    and src.func.id not in st.env):
+                return None
+        uid = self.I.fresh()
+        loop = ast.For(target=ast.Name(id=f"__yf{uid}", ctx=ast.Store()), iter=src,
+                       body=[ast.Expr(value=ast.Yield(value=ast.Name(id=f"__yf{uid}", ctx=ast.Load())))], orelse=[])
+        for x in ast.walk(loop):
+            if not hasattr(x, "lineno"):
+                ast.copy_location(x, n)
+        ast.fix_missing_locations(loop)
+        return [loop]
 
     def e_YieldFrom(self, n, st):
         self.is_generator = True
@@ -1671,29 +2100,66 @@ class _Frame:
     def _comp_over_table(self, kind, n, elt_nodes, st) -> Optional[T]:
         """[f(a, b) for a, b in TABLE] over a literal table of constants (a module-level tuple, a local literal) with no
         condition is the literal list of its items: [f(a0, b0), f(a1, b1), ...]."""
-        if len(n.generators) != 1 or n.generators[0].ifs or n.generators[0].is_async or kind == "set":
+        if len(n.generators) != 1 or n.generators[0].is_async or kind == "set":
             return None
         g = n.generators[0]
-        if not isinstance(g.iter, ast.Name):
+        if g.ifs and kind != "list":
+            return None
+        inline = isinstance(g.iter, (ast.Tuple, ast.List)) and 0 < len(g.iter.elts) <= 16 \
+            and not any(isinstance(e, ast.Starred) for e in g.iter.elts)
+        if not inline and not isinstance(g.iter, ast.Name) \
+                and not (isinstance(g.iter, ast.Call) and isinstance(g.iter.func, ast.Name)
+                         and g.iter.func.id == "range" and 1 <= len(g.iter.args) <= 3):
             return None
         saved = (len(self.rec.pops), len(self.rec.calls), len(self.rec.effects))
         items = self.eval(g.iter, st)
+        if items.op == "call" and items.a[0] == T("builtin", ("range",)) and 1 <= len(items.a[1]) <= 3 and not items.a[2] \
+                and all(a_.op == "const" and isinstance(a_.a[0], int) and not isinstance(a_.a[0], bool) for a_ in items.a[1]):
+            try:
+                rng = range(*[a_.a[0] for a_ in items.a[1]])
+            except ValueError:
+                rng = None
+            if rng is not None and len(rng) <= 16:
+                if len(rng) == 0:
+                    del self.rec.pops[saved[0]:]
+                    del self.rec.calls[saved[1]:]
+                    del self.rec.effects[saved[2]:]
+                    return T("list", ((),)) if kind != "dict" else T("dict", ((),))
+                items = T("tuple", (tuple(const(i) for i in rng),))
         if items.op == "global":
             found = self.repo.lookup(items.a[0])
             if found and found[0] == "const" and isinstance(found[2], (ast.Tuple, ast.List)) and found[2].elts \
                     and len(found[2].elts) <= 64 and all(_literal_seq(e) for e in found[2].elts):
                 items = self.eval(found[2], st)
-        if not (items.op in ("tuple", "list") and items.a[0] and len(items.a[0]) <= 64 and all(_const_tree(i) for i in items.a[0])):
+        # a literal written in the comprehension itself is evaluated once, in order, before the first iteration: its
+        # items need not be constants
+        if not (items.op in ("tuple", "list") and items.a[0] and len(items.a[0]) <= 64
+                and (inline or all(_const_tree(i) for i in items.a[0]))):
             del self.rec.pops[saved[0]:]
             del self.rec.calls[saved[1]:]
             del self.rec.effects[saved[2]:]
             return None
         out = []
+        acc = T("list", ((),))
         for item in items.a[0]:
             inner = State(dict(st.env), st.heap, st.pc)
             self.bind(g.target, item, inner, n, record=False)
+            conds = []
+            for c in g.ifs:
+                ct = self.eval(c, inner)
+                conds.append(ct)
+                inner.pc = inner.pc + ((ct, True),)
             elts = tuple(self.eval(e, inner) for e in elt_nodes)
-            out.append(elts[0] if len(elts) == 1 else T("tuple", (elts,)))
+            one = elts[0] if len(elts) == 1 else T("tuple", (elts,))
+            out.append(one)
+            if g.ifs:
+                # kept items in order: the list the equivalent `if c: acc.append(x)` statements build
+                nxt = T("mut", (acc, "append", (one,)))
+                for ct in reversed(conds):
+                    nxt = T("ite", (ct, nxt, acc))
+                acc = nxt
+        if g.ifs:
+            return acc
         if kind == "dict":
             return T("dict", (tuple((o.a[0][0], o.a[0][1]) for o in out),))
         return T("list", (tuple(out),))
@@ -1753,6 +2219,29 @@ class _Frame:
         for k in n.keywords:
             kwargs.append((k.arg if k.arg is not None else "**", self.eval(k.value, st)))
         args_t, kwargs_t = tuple(args), tuple(kwargs)
+        while func.op == "call" and func.a[0] == T("global", ("functools.partial",)) and func.a[1] \
+                and not any(a.op == "star" for a in func.a[1]) \
+                and not any(k == "**" for k, _ in func.a[2] + kwargs_t):
+            # partial(f, a, k=v)(x) is f(a, x, k=v): recorded as the call it makes
+            kw2 = dict(func.a[2])
+            kw2.update(dict(kwargs_t))
+            args_t, kwargs_t = tuple(func.a[1][1:]) + args_t, tuple(kw2.items())
+            func = func.a[1][0]
+        if kwargs_t:
+            args_t, kwargs_t = self._positionalise(func, args_t, kwargs_t)
+        if len(args_t) == 1 and not kwargs_t and args_t[0].op == "call" and args_t[0].a[0] == T("builtin", ("map",)) \
+                and len(args_t[0].a[1]) == 2 and not args_t[0].a[2] and not any(a.op == "star" for a in args_t[0].a[1]) \
+                and ((func.op == "builtin" and func.a[0] in ("list", "tuple", "set", "frozenset", "sorted", "any", "all", "sum",
+                                                              "min", "max"))
+                     or (func.op == "attr" and func.a[1] == "join")):
+            # a consumer that exhausts its argument: consumer(map(f, xs)) is consumer(f(x) for x in xs)
+            uid = self.I.fresh()
+            inner = State(dict(st.env), st.heap, st.pc)
+            inner.env[f"__mf{uid}"], inner.env[f"__mx{uid}"] = args_t[0].a[1]
+            gen = ast.parse(f"(__mf{uid}(__me{uid}) for __me{uid} in __mx{uid})", mode="eval").body
+            for x in ast.walk(gen):
+                ast.copy_location(x, n)
+            args_t = (self.eval(gen, inner),)
         cr = CallRec(func, args_t, kwargs_t, st.pc, self.loops, self.trys, self.seq(), self.qualname, n.lineno,
                      n.col_offset)
         self.rec.calls.append(cr)
@@ -1765,6 +2254,38 @@ class _Frame:
             self._call_arg_nodes = saved_nodes
         cr.result = res
         return res
+
+    def _positionalise(self, func: T, args: tuple, kwargs: tuple):
+        """f(a, y=c, x=b) for a package function def f(p, x, y) is f(a, b, c): one spelling of the same call."""
+        fnode, skip = None, 0
+        if func.op == "func":
+            found = self.repo.lookup(func.a[0])
+            if found and found[0] == "func":
+                fnode = found[2]
+        elif func.op == "attr" and func.a[0].op == "class":
+            found = self.repo.lookup(func.a[0].a[0])
+            if found and found[0] == "class" and func.a[1] in found[2].methods:
+                fnode = found[2].methods[func.a[1]]
+                decos = {ast.unparse(d) for d in fnode.decorator_list}
+                skip = 1 if "classmethod" in decos else 0
+        elif func.op == "attr" and func.a[0].op == "param" and func.a[0].a[0] == "self" and self.self_cls is not None \
+                and func.a[1] in self.self_cls.methods:
+            fnode = self.self_cls.methods[func.a[1]]
+            decos = {ast.unparse(d) for d in fnode.decorator_list}
+            skip = 0 if "staticmethod" in decos else 1
+        if fnode is None or fnode.args.vararg or fnode.args.kwarg or fnode.args.posonlyargs or fnode.args.kwonlyargs \
+                or any(a.op == "star" for a in args) or any(k == "**" for k, _ in kwargs):
+            return args, kwargs
+        names = [a.arg for a in fnode.args.args][skip:]
+        kw = dict(kwargs)
+        out = list(args)
+        for nme in names[len(args):]:
+            if nme not in kw:
+                break
+            out.append(kw.pop(nme))
+        if kw:
+            return args, kwargs
+        return tuple(out), ()
 
     def call(self, func: T, args: tuple, kwargs: tuple, st: State, node) -> T:
         opaque = T("call", (func, args, kwargs))
@@ -1834,7 +2355,8 @@ class _Frame:
                     # identified with earlier ones
                     st.heap[pth] = T("mut", (st.heap.get(pth, pth), name, args))
                 root = node.func.value if isinstance(node, ast.Call) and isinstance(node.func, ast.Attribute) else None
-                if isinstance(root, ast.Name) and root.id in st.env and recv.op not in ("param",):
+                if isinstance(root, ast.Name) and root.id in st.env and recv.op not in ("param",) \
+                        and st.env[root.id].op != "alias":
                     st.env[root.id] = T("mut", (recv, name, args) + ((kwargs,) if kwargs else ()))
                     if name == "update" and recv.op == "dict" and len(args) <= 1:
                         # a local dict literal updated with literal pairs / another literal dict / keywords stays a literal
@@ -1851,6 +2373,13 @@ class _Frame:
                 fs = _format_to_fstr(recv.a[0], args, kwargs)
                 if fs is not None:
                     return fs
+            if name in ("ljust", "rjust", "center") and 1 <= len(args) <= 2 and not kwargs and recv.op != "const" \
+                    and args[0].op == "const" and isinstance(args[0].a[0], int) and not isinstance(args[0].a[0], bool) \
+                    and args[0].a[0] >= 0 and (len(args) == 1 or (args[1].op == "const" and isinstance(args[1].a[0], str)
+                                                                   and len(args[1].a[0]) == 1 and args[1].a[0] not in "{}")):
+                # only strings have ljust: s.ljust(n) is f'{s:<n}'
+                fill = args[1].a[0] if len(args) == 2 else ""
+                return T("fstr", ((("val", recv, "", const(fill + {"ljust": "<", "rjust": ">", "center": "^"}[name] + str(args[0].a[0]))),),))
             if recv.op == "const" and isinstance(recv.a[0], (str, bytes)) and all(a.op == "const" for a in args) \
                     and name in ("lower", "upper", "strip", "format", "encode", "decode", "replace", "ljust", "rjust"):
                 try:
@@ -1891,6 +2420,10 @@ class _Frame:
                             return r
                 if a0.op == "const" and isinstance(a0.a[0], (int, str, bool)):
                     return const(str(a0.a[0]))
+            if b == "format" and 1 <= len(args) <= 2 and not kwargs and (len(args) == 1 or (
+                    args[1].op == "const" and isinstance(args[1].a[0], str) and "{" not in args[1].a[0])):
+                # format(x) is f'{x}', format(x, 'spec') is f'{x:spec}'
+                return _fstr_of([_fstr_value(args[0], "", args[1].a[0] if len(args) == 2 else "")])
             if b == "bool" and len(args) == 1 and args[0].op == "const":
                 return const(bool(args[0].a[0]))
             if b == "len" and len(args) == 1:
@@ -2090,7 +2623,24 @@ def merge(a: State, b: State, cond: T, base_pc: PC) -> State:
     return State(env, heap, base_pc)
 
 
+def get_form(cond: T, a: T, b: T) -> Optional[T]:
+    """`d[k] if k in d else x` (or the `not in` mirror image) is `d.get(k, x)`: one form for both spellings."""
+    if cond.op == "cmp" and cond.a[0] in ("in", "not in"):
+        hit, miss = (a, b) if cond.a[0] == "in" else (b, a)
+        k, d = cond.a[1], cond.a[2]
+        if hit == T("sub", (d, k)) and d.op not in ("tuple", "list", "set", "const"):
+            return T("call", (T("attr", (d, "get")), (k,) if miss == NONE else (k, miss), ()))
+    return None
+
+
 def merge_terms(cond: T, va: T, vb: T) -> T:
+    if va.op == "alias" and isinstance(va.a[0], T):
+        va = va.a[0]
+    if vb.op == "alias" and isinstance(vb.a[0], T):
+        vb = vb.a[0]
+    g = get_form(cond, va, vb)
+    if g is not None:
+        return g
     # merge field-wise when both sides are the same constructed class (keeps objects inspectable)
     if va.op == "new" and vb.op == "new" and va.a[0] == vb.a[0] and [k for k, _ in va.a[1]] == [k for k, _ in vb.a[1]]:
         return T("new", (va.a[0], tuple((k, x if x == y else merge_terms(cond, x, y))
